@@ -35,26 +35,29 @@ Wiring == /\ \A n \in StateNames : ReplyHash(n) = Tok(n)
 \* ---- uiHeartbeat
 Modes == {"signer", "uihb", "boot", "unknown"}
 HbEnds == {"ok", "errorresult", "dongleerror", "timeout"}
-VARIABLES pc, mode, code, hb
-vars == <<pc, mode, code, hb>>
-Init == pc = "mode0" /\ mode = "signer" /\ code = 1 /\ hb = "none"
+VARIABLES pc, mode, code, hb, kept
+vars == <<pc, mode, code, hb, kept>>
+\* kept: the device answered the last EXIT normally instead of dropping the link (both are tolerated)
+Init == pc = "mode0" /\ mode = "signer" /\ code = 1 /\ hb = "none" /\ kept = FALSE
 \* code 1 = not answered yet
-Mode0 == /\ pc = "mode0" /\ pc' = "exit1" /\ UNCHANGED <<mode, code, hb>>
+Mode0 == /\ pc = "mode0" /\ pc' = "exit1" /\ UNCHANGED <<mode, code, hb, kept>>
 Exit1 == /\ pc = "exit1" /\ \E m \in Modes : mode' = m
+         /\ kept' \in BOOLEAN
          /\ pc' = "mode1" /\ UNCHANGED <<code, hb>>
 Mode1 == /\ pc = "mode1"
          /\ IF mode = "uihb" THEN pc' = "hb" /\ UNCHANGED code ELSE pc' = "done" /\ code' = -905
-         /\ UNCHANGED <<mode, hb>>
+         /\ UNCHANGED <<mode, hb, kept>>
 Hb == /\ pc = "hb" /\ \E e \in HbEnds :
             /\ hb' = e
             /\ IF e \in {"dongleerror", "timeout"} THEN pc' = "done" /\ code' = -905    \* exception: no second exit
                ELSE pc' = "exit2" /\ UNCHANGED code
-      /\ UNCHANGED mode
+      /\ UNCHANGED <<mode, kept>>
 Exit2 == /\ pc = "exit2" /\ \E m \in Modes : mode' = m
+         /\ kept' \in BOOLEAN
          /\ pc' = "mode2" /\ UNCHANGED <<code, hb>>
 Mode2 == /\ pc = "mode2"
          /\ code' = IF mode # "signer" THEN -905 ELSE IF hb = "ok" THEN 0 ELSE -905
-         /\ pc' = "done" /\ UNCHANGED <<mode, hb>>
+         /\ pc' = "done" /\ UNCHANGED <<mode, hb, kept>>
 Next == Mode0 \/ Exit1 \/ Mode1 \/ Hb \/ Exit2 \/ Mode2
 Spec == Init /\ [][Next]_vars
 UiHbBack == (pc = "done") => FirstFailQ(UiHbModeClauses([code |-> code, finalmode |-> mode])) = ""
